@@ -11,7 +11,8 @@ spec/Termdet/FourCounterTrace.tla  property-level validation of what the real mo
    of workload changes, message sends / receives (a reception may release tasks piecewise and may complete with a
    flying-message action or with a released task) and control-message deliveries: safety (Safe, CbOnce, none of the
    module's asserts, NoStrand) and liveness (AllTerm, Agreement) under per-action weak fairness.
-2. Transition coverage on the real module: the complete state graphs for N = 2 and N = 3 (TLC -dump) are handed to
+2. Transition coverage on the real module: the complete state graphs for N = 2 and N = 3 (thorough: also N = 4 with <= 2
+   messages / 1 spawned task and N = 5 with 1 / 1) (TLC -dump) are handed to
    harness/fourcounter/fc_replay.c, which executes EVERY transition of the graph on N virtual ranks of the real module
    from the state reached by the shortest path, compares the observable state of the real ranks (taskpool_state,
    callbacks, nb_tasks / nb_pending_actions, every queued control message with its payload, parked messages) with the
@@ -37,13 +38,14 @@ META = {
             "executed on N virtual ranks of the real module (real taskpool_ready/addto_*/outgoing/incoming_message_*/"
             "msg_dispatch, recorded send_am) from the state reached by the shortest path, with the observable state of the "
             "real ranks compared to the model after every step, followed by a drive to quiescence; the shortest unsafe / "
-            "stranded behaviours of 15 weakened variants of the model and simulated 4-process behaviours are replayed too.  "
+            "stranded behaviours of 16 weakened variants of the model and simulated 4-process behaviours are replayed too.  "
             "TLC validates the recorded executions: no termination callback while a process has work or an application "
             "message is unreceived, and every process terminates exactly once when the system is quiet.",
     "note": "Model bounds: <= 2 application messages, <= 2 spawned tasks, FIFO control channels.  Transition coverage: all "
-            "transitions of the N = 2 and N = 3 graphs are executed and compared in the harness; trace validation by TLC "
+            "transitions of the N = 2 and N = 3 graphs (thorough: also N = 4 with 2 messages / 1 task and N = 5 with 1 / 1) are "
+            "executed and compared in the harness; trace validation by TLC "
             "covers every execution the harness flags (state mismatch, callback in a non-quiet system, not terminated at the "
-            "end; capped at 2 x 150 per graph) plus a seeded sample (~500) of the others plus all directed and simulated "
+            "end; capped at 2 x 150 per graph) plus a seeded sample (~400) of the others plus all directed and simulated "
             "behaviours - for the unsampled rest the (equally simple) oracle inside the harness is trusted.  The harness "
             "restores the saved state of the virtual ranks (monitor bytes, counters, channels) instead of re-executing the "
             "deterministic prefix of each transition.  Liveness on the real code is bounded (fair round-robin delivery, "
@@ -64,13 +66,15 @@ VARIANTS_N2 = {"nolast": "unsafe", "nolastR": "unsafe", "noeq": "unsafe", "su_no
                "wc_noBWC": "strand", "wc_noIWC": "strand", "wc_noIWP": "strand", "wc_nosend": "strand", "nt_nozero": "strand",
                "nt_noret": "strand", "pa_nozero": "strand", "pa_noret": "strand", "up_nocheck": "strand",
                "down_nocheck": "strand"}
-VARIANTS_N3 = {"mr_noleft": "unsafe"}                                         # thorough
+VARIANTS_N3 = {"mr_noleft": "unsafe"}                                         # needs two children
+VARIANTS_N4 = {"down_nofwd": "strand"}                                        # needs a grandchild (thorough; no messages, no tasks)
 # harness op codes (fc_replay.c) ----------------------------------------------------------------------------------------------------
 OPS = {"TaskpoolReady": 0, "Spawn": 1, "TaskDone": 2, "ActionDone": 3, "SendApp": 4, "RecvStart": 5, "RecvEnd": 6,
        "RecvEndTask": 7, "MsgUp": 8, "MsgDown": 9, "MsgDelay": 10}
 OP_NAMES = ["Ready", "Spawn", "TaskDone", "ActionDone", "SendApp", "RecvStart", "RecvEnd", "RecvEndTask", "MsgUp", "MsgDown",
             "MsgDelay"]
 MAX_FLAGGED = 150
+GRAPHS_THOROUGH = ((4, 2, 1), (5, 1, 1))   # (N, MaxMsgs, MaxSpawn) graphs (~81k and ~65k states) besides N = 2, 3 with (2, 2)
 
 
 def consts(n, variants=("code",), msgs=2, spawn=2):
@@ -162,28 +166,30 @@ def load_dot(path):
     return obs, edges, ids[init]
 
 
-def check_and_dump(ctx, d, n, cover):
-    """One TLC run: exhaustive safety + liveness (+ per-action coverage) AND the dump of the complete state graph."""
-    mod, cfg = mcgen.write_mc(d, "fc%d" % n, "FourCounter", consts(n), spec="FairSpec", invariants=INVS,
+def check_and_dump(ctx, d, n, cover, msgs=2, spawn=2):
+    """One TLC run: exhaustive safety + liveness AND the dump of the complete state graph (per-action coverage from it)."""
+    tag = "fc%d_%d_%d" % (n, msgs, spawn)
+    mod, cfg = mcgen.write_mc(d, tag, "FourCounter", consts(n, msgs=msgs, spawn=spawn), spec="FairSpec", invariants=INVS,
                               properties=("AllTerm", "Agreement"))
-    dot = os.path.join(ctx.scratch, "fc%d-graph" % n)
-    r = tlc.run(d, mod, cfg, workers=2 if n >= 3 else 1, timeout=3000, heap="6g", coverage=bool(cover),
-                args=["-dump", "dot,actionlabels", dot])
+    dot = os.path.join(ctx.scratch, tag + "-graph")
+    r = tlc.run(d, mod, cfg, workers=2 if n >= 3 else 1, timeout=3000, heap="6g", args=["-dump", "dot,actionlabels", dot])
     ctx.states += r.distinct
     ctx.transitions += r.generated
-    ctx.models.append({"module": mod, "cfg": cfg, "distinct": r.distinct, "generated": r.generated, "depth": r.depth,
-                       "wall_s": round(r.wall, 1), "graph": True,
-                       "coverage": {k: v[0] for k, v in r.coverage.items()} if r.coverage else None})
     if not r.ok:
         raise tlc.TLCError("specification FourCounter (N = %d) does not satisfy its own properties (%s); this is a model "
                            "failure, not a verdict about the code\n%s" % (n, r.violated, r.out[-2500:]))
-    for a in cover:
-        if r.coverage.get(a, (0, 0))[1] == 0:
-            raise tlc.TLCError("vacuity guard: action %s of FourCounter never taken for N = %d" % (a, n))
     obs, edges, init = load_dot(dot + ".dot")
     os.unlink(dot + ".dot")
     if len(obs) != r.distinct:
         raise tlc.TLCError("state graph dump has %d nodes, TLC found %d distinct states" % (len(obs), r.distinct))
+    taken = {}                                   # vacuity guard: transitions per action, counted on the dumped graph
+    for e in edges:
+        taken[e[2]] = taken.get(e[2], 0) + 1
+    for a in cover:
+        if not taken.get(OPS[a]):
+            raise tlc.TLCError("vacuity guard: action %s of FourCounter never taken for N = %d" % (a, n))
+    ctx.models.append({"module": mod, "cfg": cfg, "distinct": r.distinct, "generated": r.generated, "depth": r.depth,
+                       "wall_s": round(r.wall, 1), "graph": True, "coverage": {a: taken.get(OPS[a], 0) for a in ACTIONS}})
     return obs, edges, init
 
 
@@ -279,22 +285,25 @@ def run(ctx):
     graphs = {}
     for n in ((2, 3) if ctx.quick else (1, 2, 3, 4)):
         if n in (2, 3):
-            graphs[n] = check_and_dump(ctx, d, n, ACTIONS if n == 3 else ())
+            graphs[(n, 2, 2)] = check_and_dump(ctx, d, n, ACTIONS if n == 3 else ())
         else:
             mod, cfg = mcgen.write_mc(d, "fc%d" % n, "FourCounter", consts(n), spec="FairSpec", invariants=INVS,
                                       properties=("AllTerm", "Agreement"))
             ctx.tlc_check(d, mod, cfg, workers=2, timeout=3000, heap="6g")
+    if not ctx.quick:                     # smaller bounds, more processes (a process with a parent AND children): graphs too
+        for n, msgs, spawn in GRAPHS_THOROUGH:
+            graphs[(n, msgs, spawn)] = check_and_dump(ctx, d, n, (), msgs, spawn)
     ctx.exhaustive = True
 
     # ---- 2. directed behaviours: the shortest unsafe / stranded behaviour of every weakened variant of the model ----------------------
     # (also the sensitivity self-test of the model: each weakening must be noticed by Safe / NoStrand)
-    directed = directed_behaviours(ctx, d, 2, VARIANTS_N2)
+    directed = directed_behaviours(ctx, d, 2, VARIANTS_N2) + directed_behaviours(ctx, d, 3, VARIANTS_N3)
     if not ctx.quick:
-        directed += directed_behaviours(ctx, d, 3, VARIANTS_N3)
+        directed += directed_behaviours(ctx, d, 4, VARIANTS_N4, msgs=0, spawn=0)
     ctx.extra["directed_variants"] = {v: "%s after %d steps (N = %d)" % (k, len(h), n) for n, h, v, k in directed}
 
     # ---- 3. behaviours -> environment replay on the real module ---------------------------------------------------------------------
-    plan = [(4, 160, 48)] if ctx.quick else [(2, 400, 32), (3, 1200, 44), (4, 900, 56), (5, 300, 64)]
+    plan = [(4, 120, 48)] if ctx.quick else [(2, 400, 32), (3, 1200, 44), (4, 900, 56), (5, 300, 64)]
     items = [(n, h) for n, h, _, _ in directed]
     for n, num, depth in plan:
         c = consts(n)
@@ -306,6 +315,10 @@ def run(ctx):
     ctx.extra["behaviours"] = len(items)
     exs, metas = replay_behaviours(ctx, exe, items, "sim")
     lines = [to_line(n, h) for n, h in items]
+    # what the (simple) oracle inside the harness thinks of each execution: 2 = a callback in a non-quiet system / not everybody
+    # terminated / crash, 1 = the real state differs from the model, 0 = nothing.  Only used to ORDER the trace validation.
+    flags = [2 if (i >= len(metas) or metas[i].get("badterm") or metas[i].get("stuck") or exs[i][-1].get("e") == "Crash") else 0
+             for i in range(len(exs))]
     for i, ((n, h), m) in enumerate(zip(items, metas)):
         if i < len(directed):
             continue          # predicted by a weakened model on purpose: judged by the trace specification only
@@ -324,11 +337,12 @@ def run(ctx):
 
     # ---- 4. transition coverage: every transition of the N = 2 and N = 3 graphs on the real module -------------------------------------
     cov = {}
-    for n in sorted(graphs):
-        labels, edges, init = graphs[n]
-        target = 110 if n == 2 else (420 if ctx.quick else 4000)              # executions sampled for TLC besides the flagged ones
+    for key in sorted(graphs):
+        n = key[0]
+        labels, edges, init = graphs[key]
+        target = 80 if n == 2 else (300 if ctx.quick else 1500)              # executions sampled for TLC besides the flagged ones
         gx, gl, gm, summ = replay_graph(ctx, exe, n, labels, edges, init, max(1, int(100000.0 * target / max(1, len(edges)))))
-        cov["N=%d" % n] = {k: summ.get(k) for k in ("nodes", "edges", "visited_nodes", "executed_edges", "mismatch", "illegal",
+        cov["N=%d,msgs<=%d,tasks<=%d" % key] = {k: summ.get(k) for k in ("nodes", "edges", "visited_nodes", "executed_edges", "mismatch", "illegal",
                                                     "badexec", "emitted", "capped")}
         ndiv = (summ.get("mismatch") or 0) + (summ.get("illegal") or 0) + (1 if summ.get("root_mismatch") else 0)
         ctx.divergences += ndiv
@@ -343,26 +357,42 @@ def run(ctx):
                            limit=6)
         exs.extend(gx)
         lines.extend(gl)
-        graphs[n] = None
+        flags.extend(2 if (m.get("badterm") or m.get("stuck") or m.get("crash")) else 1 if (m.get("mismatch") or m.get("illegal")) else 0
+                     for m in gm)
+        graphs[key] = None
     ctx.extra["transition_coverage"] = cov
     ctx.evaluations = len(items) + sum((c.get("executed_edges") or 0) for c in cov.values())
 
     # ---- 5. verdict ---------------------------------------------------------------------------------------------------------------------
-    seen, uex, uline = set(), [], []
-    for e, l in zip(exs, lines):
+    seen, uex, uline, uflag = set(), [], [], []
+    for e, l, fl in zip(exs, lines, flags):
         k = json.dumps(e, sort_keys=True)
         if k not in seen:
             seen.add(k)
             uex.append(e)
             uline.append(l)
+            uflag.append(fl)
     ctx.extra["executions_recorded"] = len(exs)
     ctx.extra["executions_distinct"] = len(uex)
-    fails = ctx.validate("Termdet", "FourCounterTrace", "FourCounterTrace.cfg", uex, batch=3000, env=JVM_ENV, timeout=1500)
-    for f in fails:
-        i = f.index
-        ctx.violation("four-counter termination: termination declared while a process had work / a message was unreceived, or "
-                      "not declared after quiescence: %s" % json.dumps(f.describe())[:1200],
-                      {"line": uline[i] if i < len(uline) else None, "events": f.execution})
+
+    def judge(idx, **kw):
+        sub = [uex[i] for i in idx]
+        for f in ctx.validate("Termdet", "FourCounterTrace", "FourCounterTrace.cfg", sub, env=JVM_ENV, timeout=1500, **kw):
+            i = idx[f.index]
+            ctx.violation("four-counter termination: termination declared while a process had work / a message was unreceived, or "
+                          "not declared after quiescence: %s" % json.dumps(f.describe())[:1200],
+                          {"line": uline[i], "events": f.execution})
+    # the executions the harness oracle suspects first, one TLC run each (bounded: a broken module yields hundreds of them and
+    # locating each rejected execution inside a big batch costs many TLC runs); once TLC has rejected some of them the other
+    # suspects add nothing to the verdict and are left out, everything else is still validated
+    bad = [i for i in range(len(uex)) if uflag[i] == 2]
+    judge(bad[:2], batch=1, max_failures=2)
+    rest = [i for i in range(len(uex)) if uflag[i] != 2]
+    if ctx.violations:
+        ctx.extra["suspect_executions_not_validated"] = len(bad) - len(bad[:2])
+    else:
+        rest = bad[2:] + rest
+    judge(rest, batch=3000)
     # ---- binding self-test: an application message that is never received must make the next `term` unacceptable ------------------
     cand = [e for e in uex if any(ev.get("e") == "recvend" for ev in e) and e[-1].get("e") == "end"]
     if cand and not ctx.violations:
